@@ -2,7 +2,7 @@
    no-foreign-exception theorem instantiated with the tables of the running interpreter. *)
 From Coq Require Import List NArith ZArith Bool Lia.
 From I18n Require Import Lib.Outcome Lib.Ranges Generated.Ucd Generated.PyConsts Generated.PyFmtInfo
-  Model.FmtPerlBrace Model.FmtPyBrace Model.FmtInstances Spec.PerlBrace Proofs.PerlBrace Proofs.FmtPyBrace.
+  Model.FmtPerlBrace Model.FmtPyBrace Model.FmtPyBraceDomain Model.FmtInstances Spec.PerlBrace Proofs.PerlBrace Proofs.FmtPyBrace.
 Import ListNotations.
 Local Open Scope N_scope.
 
@@ -96,3 +96,11 @@ Lemma gen_spec_sound : forall ftext tl tp v,
   spec_types gen_ucd gen_pybrace_ssize_max ftext tl = Ok tp -> forallb not_brace tl = true -> spec_guard gen_ucd tl = true ->
   val_in v tp = true -> format_value re_d_value v tl = FSuccess.
 Proof. exact (spec_sound gen_ucd gen_pybrace_ssize_max gen_ucd_spec). Qed.
+
+(* ---------------------------------------------------------------- flat fields format, on the generated tables *)
+From I18n Require Import Proofs.FmtPyBraceFlat.
+
+Lemma gen_flat_formats : forall s sg args kw,
+  pybrace_parse_gen s = Ok sg -> flat_guard gen_ucd (S (length s)) s = true -> args_match sg args kw ->
+  cpy_format re_d_value s args kw = FSuccess.
+Proof. intros s sg args kw. unfold pybrace_parse_gen. exact (flat_formats gen_ucd gen_pybrace_ssize_max gen_ucd_chars gen_ucd_spec s sg args kw). Qed.
